@@ -21,6 +21,7 @@ OSA = z3.Function("osa", IntS, IntS, IntS)
 
 
 def register(R, tier="quick"):
+    register_terms_within(R)
     def mkseq(I, name):
         s = SymList(z3.Array(I.fresh_name(name), IntS, IntS), z3.Int(I.fresh_name("len_" + name)), "list")
         I.assume(s.n >= 0)
@@ -156,3 +157,109 @@ def register(R, tier="quick"):
                             "negative-index wraparound as modelled in pyvc"],
                note="for all sequences of any length: the value returned is the OSA (restricted Damerau-Levenshtein) distance "
                     "of the textbook recurrence")
+
+
+def register_terms_within(R):
+    """C19 — IndexReader.terms_within (the path every multi-segment reader takes): of the terms the field offers under
+    the required prefix, exactly those whose documented distance to `text` is at most maxdist are yielded, each once, in
+    the order of the lexicon.  `distance(word, text, limit=maxdist)` is used through the proved contract of
+    damerau_levenshtein#limit (exact when <= limit, some value > limit otherwise), stated here over D(i) = the distance of
+    the i-th candidate term."""
+    from pyvc.values import Abstract, SpecFn, Obj, Opaque, Builtin
+    RD = "whoosh.reading"
+    TERM = z3.Function("tw_term", IntS, IntS)        # i-th term under the prefix (as bytes)
+    WORD = z3.Function("tw_word", IntS, IntS)        # its decoded form
+    D = z3.Function("tw_dist", IntS, IntS)           # distance(word_i, text)
+    KEPT = z3.Function("tw_kept", IntS, IntS)
+    WIDX = z3.Function("tw_index_of_word", IntS, IntS)
+
+    class Terms(Abstract):
+        def __init__(self, I):
+            self.n = z3.Int(I.fresh_name("nterms"))
+            I.assume(self.n >= 0)
+
+        def havoc(self, I):
+            pass
+
+        def __deepcopy__(self, memo):
+            return self
+
+        def iter_protocol(self, I):
+            return 0, self.n, 1, (lambda i: TERM(to_z3(i)))
+
+    class FieldObj(Abstract):
+        def havoc(self, I):
+            pass
+
+        def m_from_bytes(self, I, b):
+            # decoding the i-th term gives the i-th word (TERM is injective on indices by the assumption below)
+            return WORD(WIDX(to_z3(b)))
+
+    class Schema(Abstract):
+        def havoc(self, I):
+            pass
+
+        def getitem(self, I, idx, node=None):
+            return FieldObj()
+
+    class Text(Abstract):
+        def havoc(self, I):
+            pass
+
+        def getslice(self, I, lo, hi, step, node=None):
+            return Opaque("prefix of text")
+
+    def setup(I):
+        terms = Terms(I)
+        i = z3.Int("tw_i")
+        I.assume(z3.ForAll([i], WIDX(TERM(i)) == i))
+        I.assume(KEPT(0) == 0)
+        I.ghost["tw_terms"] = terms
+        # expand_prefix is a collaborator here (its own behaviour: lexicon order, prefix filter - bounded fuzzy harness)
+        rd = Obj(I.repo.klass(RD, "IndexReader"), {"schema": Schema(),
+                                                   "expand_prefix": Builtin("expand_prefix", lambda I_, args, kw, node: terms)})
+        return {"self": rd, "fieldname": Opaque("fieldname"), "text": Text(), "maxdist": z3.Int("maxdist"), "prefix": z3.Int("prefix")}
+
+    def dist_stub(I, args, kw, node):
+        # damerau_levenshtein#limit's postcondition at this call: word = WORD(i)
+        w = to_z3(args[0])
+        lim = to_z3(kw.get("limit", args[2] if len(args) > 2 else None))
+        kk = z3.Int(I.fresh_name("dist"))
+        i = z3.Int(I.fresh_name("wi"))
+        I.assume(z3.ForAll([i], z3.Implies(WORD(i) == w, z3.And(z3.Implies(D(i) <= lim, kk == D(i)), z3.Implies(D(i) > lim, kk > lim)))))
+        return kk
+
+    def kept(I, i):
+        i = to_z3(i)
+        I.assume(KEPT(i + 1) == KEPT(i) + z3.If(D(i) <= to_z3(I.root_frame.env["maxdist"]), 1, 0))
+        return KEPT(i)
+
+    def good_yield(I, y, i):
+        i = to_z3(i)
+        return z3.And(to_z3(y) == WORD(i), D(i) <= to_z3(I.root_frame.env["maxdist"]))
+
+    class ExpandStub(object):
+        pass
+
+    def tw_hint(I, env):
+        i = z3.Int("twh_i")
+        return [z3.ForAll([i], TERM(i) == i), z3.ForAll([i], WIDX(i) == i), z3.ForAll([i], WORD(i) == i), z3.ForAll([i], D(i) == 1),
+                z3.ForAll([i], KEPT(i) == i), I.ghost["tw_terms"].n == 1, env["maxdist"] == 1]
+
+    R.contract(RD + ":IndexReader.terms_within", props=["C19"], setup=setup, cover_hint=tw_hint,
+               requires=["maxdist >= 0"],
+               spec_funcs={"good_yield": SpecFn("good_yield", good_yield), "kept": SpecFn("kept", kept)},
+               ghost="ok = True\nny = 0\n",
+               on_yield="ok = ok and good_yield(_y, _k)\nny = ny + 1\n",
+               ensures=["ok", lambda I, env: to_z3(I.ghost["ny"]) == kept(I, I.ghost["tw_terms"].n)],
+               loops={0: LoopSpec(index="_k", inv=["ok", "ny == kept(_k)", lambda I, env: to_z3(env["_k"]) <= I.ghost["tw_terms"].n],
+                                  havoc=["ok", "ny"])},
+               # `distance` (= damerau_levenshtein) is used through its proved postcondition, restated over D(i)
+               opts={"abstract_globals": {(RD, "distance"): lambda I, v: Builtin("distance", dist_stub)}},
+               canaries=[Canary("one-edit-too-many", "if k <= maxdist:", "if k <= maxdist + 1:"),
+                         Canary("strict-bound", "if k <= maxdist:", "if k < maxdist:"),
+                         Canary("unlimited-distance-call", "k = distance(word, text, limit=maxdist)", "k = distance(word, text, limit=maxdist - 1)")],
+               assumptions=["expand_prefix(fieldname, text[:prefix]) yields the field's terms that start with the required prefix "
+                            "(bounded: fuzzy harness); from_bytes is the field's decoding"],
+               note="the brute-force path (every multi-segment reader): a term is yielded iff its distance to the text, as "
+                    "computed by the proved damerau_levenshtein with limit=maxdist, is at most maxdist")
